@@ -44,6 +44,12 @@
 //	                      reach = its closure under contains (nil/error/value
 //	                      results contribute nothing)
 //
+// Fail closed: an access through a reference whose points-to set is empty
+// is emitted as an access to RUnknown (Effects.ok becomes false).  defer:
+// effects are emitted at every exit following the defer statement.
+// sync.Pool: Get() = fresh allocation owned until Put (ASSUMPTION), Put has
+// no effect.  Assembly routines: table asmStubs in sigs.go.
+//
 // Package-level `var x = e` initialisers become the synthetic function
 // "pkg.init#vars", init() functions "pkg.init#N"; both are listed in
 // init_names and are exempt from the no-global-write rule.
